@@ -13,7 +13,7 @@ ANCHORS = [("streams.py", "PandasStream.run"), ("streams.py", "NumpyStream.run")
            ("streams.py", "XarrayStream.run"), ("config.py", "Call.run"), ("config.py", "QcConfig.run")]
 RULE = ("W1: tables of 1,2,3,5 (..8 thorough) rows with unique ids, one probe test, every window layout (absent, "
         "closed, start-only, end-only, empty, all-covering, bounds exactly on / one second after each row time) on "
-        "every front end (PandasStream with default/shifted/permuted/string/datetime/reversed index and renamed axis "
+        "every front end (PandasStream with default/shifted/permuted/string/datetime/reversed/duplicate-label/constant-label index and renamed axis "
         "columns, NumpyStream array+dict, XarrayStream Dataset (time as coordinate / as plain variable) + NetCDF-3 "
         "file, NetcdfStream Dataset + file, QcConfig.run); W2: seeded configs of 1-3 contexts x 1-3 streams x 1-3 "
         "tests drawn from the probe and neighbour/time/depth/position dependent real tests on regular and irregular "
@@ -242,6 +242,7 @@ def fe_variants(ctx, tb, single_stream):
     """(front end, opts) pairs applicable to this table."""
     out = [("pandas", {}), ("pandas", {"index": "shifted"}), ("pandas", {"index": "permuted"}),
            ("pandas", {"index": "string"}), ("pandas", {"index": "datetime"}), ("pandas", {"index": "reversed"}),
+           ("pandas", {"index": "duplicated"}), ("pandas", {"index": "constant"}),
            ("pandas", {"names": {"time": "when", "z": "depth", "lat": "y", "lon": "x"}}),
            ("numpy-dict", {}), ("numpy-dict", {"time_carrier": "epoch"}),
            ("xarray-ds", {}), ("xarray-file", {}), ("netcdf-ds", {}), ("netcdf-file", {})]
